@@ -185,6 +185,26 @@ func C12(tier common.Tier) int {
 									compareLayout(run, fam, fmt.Sprintf("declaring-package-order%d/skip%d", order, skip), e1.UseSpecString(&sb), pkg.Path, sb.Mix.String(), sbb, vb, sc, vcrash, text, fam+"01")
 								}
 							}
+							// the same base with an inline @ignore on the first statement of the first declaration: the comment
+							// travels with its statement, so the set of types reported in the package must survive every layout
+							if len(h) >= 2 && h[0].Encl.HasBody() {
+								ib := *base
+								ib.Blocks = append([]e1.UseBlock(nil), base.Blocks...)
+								ib.Blocks[0].Trail = "// @ignore " + fam + "01"
+								ibb, _, ic, _ := e1.UseObserve(fam, &ib)
+								for _, lt := range layouts(len(h), false) {
+									if lt.perm == nil {
+										continue
+									}
+									v := &e1.UseSpec{Pkg: pkg, Mix: mix, Sites: useSites}
+									for pos := range h {
+										bi := lt.perm[pos]
+										v.Blocks = append(v.Blocks, e1.UseBlock{Encl: h[bi].Encl, Stmts: h[bi].Stmts, File: lt.files[bi], ID: bi + 1, Trail: ib.Blocks[bi].Trail})
+									}
+									vb, _, vcrash, text := e1.UseObserve(fam, v)
+									compareLayout(run, fam, "with-inline-ignore/"+lt.name, e1.UseSpecString(&ib), pkg.Path, mix.String(), ibb, vb, ic, vcrash, text, fam+"01")
+								}
+							}
 							for _, lt := range layouts(len(h), pairs) {
 								v := &e1.UseSpec{Pkg: pkg, Mix: mix, Sites: useSites, BlankLines: lt.blank, Mangle: lt.mangle}
 								for pos := range h {
